@@ -1119,7 +1119,10 @@ class _ORMSelectCompileState(_ORMCompileState, SelectState):
         select_statement = statement
 
         # if we are a select() that was never a legacy Query, we won't
-        # have ORM level compile options.
+        # have ORM level compile options.  establish them on a shallow
+        # copy; the statement passed in is the caller's and compiling it
+        # must not change its cache key
+        statement = select_statement = statement._generate()
         statement._compile_options = cls.default_compile_options.safe_merge(
             statement._compile_options
         )
